@@ -24,6 +24,13 @@ template <> struct FT<double> { typedef long double W; static double get(uint64_
 template <typename F> static inline bool valeq(F a, F b) { return a == b || (a != a && b != b); }
 template <typename F> static inline bool finite(F x) { return x - x == 0; }
 
+// the vec4 / vec3 / vec2 overloads of the same function on (x, -x, x, x): lanes 0, 2, 3 (and 0, 2 of vec3, 0 of vec2) must satisfy the same definition as the scalar.
+// With the default qualifier this is the generic per-component path; in a GLM_FORCE_DEFAULT_ALIGNED_GENTYPES + intrinsics build it is the SIMD kernel, which is
+// thereby decided against the definition on every float of the sweep (all 2^32 in the thorough tier), not merely against the scalar overload.
+template <typename F, class FN, class PRED> static inline bool vec_lanes(F x, FN fn, PRED pred, uint64_t* bad) {
+  glm::vec<4, F> r4 = fn(glm::vec<4, F>(x, -x, x, x)); glm::vec<3, F> r3 = fn(glm::vec<3, F>(x, -x, x)); glm::vec<2, F> r2 = fn(glm::vec<2, F>(x, -x));
+  const F l[6] = {r4[0], r4[2], r4[3], r3[0], r3[2], r2[0]}; for (int i = 0; i < 6; ++i) if (!pred(l[i])) { *bad = FT<F>::bits(l[i]); return false; } return true; }
+#define VEC_LANES(FNNAME, PREDBODY, MSG) { uint64_t badl = 0; if (!vec_lanes<F>(x, [](auto v) { return glm::FNNAME(v); }, [&](F r) { return PREDBODY; }, &badl)) { o.res(badl); o.bad(40, MSG); return; } }
 enum { U_FLOOR, U_CEIL, U_TRUNC, U_ROUND, U_ROUNDEVEN, U_FRACT, U_ABS, U_SIGN, U_ISNAN, U_ISINF, U_FREXP, U_MODF, U_IROUND, U_UROUND, U_TEXCOORD, U_MISC };
 
 // exact integer-valued references, independent of libm's rounding functions: via the wider type
@@ -35,27 +42,27 @@ template <typename F, int WHICH> static void op_unary(const Case& c, Outcome& o)
   F x = FT<F>::get(c.w[0]); const bool fin = finite(x), isn = x != x;
   o.cls(isn ? 3 : !fin ? 2 : (std::fabs((double)x) >= FT<F>::BIGINT) ? 1 : 0);
   F fl = ref_floor(x), ce = ref_ceil(x), tr = ref_trunc(x);
-  if (WHICH == U_FLOOR) { F g = glm::floor(x); o.res(FT<F>::bits(g)); o.exp(FT<F>::bits(fl)); if (!valeq(g, fl)) { o.bad(1, "floor: not the largest integer <= x"); return; }
+  if (WHICH == U_FLOOR) { F g = glm::floor(x); o.res(FT<F>::bits(g)); o.exp(FT<F>::bits(fl)); if (!valeq(g, fl)) { o.bad(1, "floor: not the largest integer <= x"); return; } VEC_LANES(floor, valeq(r, fl), "floor(vec): a lane is not the largest integer <= x")
     if (!valeq(fl, (F)std::floor((typename FT<F>::W)x))) { o.bad(95, "ORACLE: integer-arithmetic floor disagrees with wide libm floor"); return; } }
-  if (WHICH == U_CEIL) { F g = glm::ceil(x); o.res(FT<F>::bits(g)); o.exp(FT<F>::bits(ce)); if (!valeq(g, ce)) { o.bad(1, "ceil: not the smallest integer >= x"); return; }
+  if (WHICH == U_CEIL) { F g = glm::ceil(x); o.res(FT<F>::bits(g)); o.exp(FT<F>::bits(ce)); if (!valeq(g, ce)) { o.bad(1, "ceil: not the smallest integer >= x"); return; } VEC_LANES(ceil, valeq(r, ce), "ceil(vec): a lane is not the smallest integer >= x")
     if (!valeq(ce, (F)std::ceil((typename FT<F>::W)x))) { o.bad(95, "ORACLE: integer-arithmetic ceil disagrees with wide libm ceil"); return; } }
-  if (WHICH == U_TRUNC) { F g = glm::trunc(x); o.res(FT<F>::bits(g)); o.exp(FT<F>::bits(tr)); if (!valeq(g, tr)) { o.bad(1, "trunc: not x with the fraction removed"); return; } }
+  if (WHICH == U_TRUNC) { F g = glm::trunc(x); o.res(FT<F>::bits(g)); o.exp(FT<F>::bits(tr)); if (!valeq(g, tr)) { o.bad(1, "trunc: not x with the fraction removed"); return; } VEC_LANES(trunc, valeq(r, tr), "trunc(vec): a lane is not x with the fraction removed") }
   if (WHICH == U_ROUND) { F g = glm::round(x); o.res(FT<F>::bits(g)); o.exp(FT<F>::bits(fl), FT<F>::bits(ce));
     if (!fin) { if (!valeq(g, x)) { o.bad(1, "round: inf/NaN must pass through"); } return; }
     typename FT<F>::W dl = (typename FT<F>::W)x - fl, dc = (typename FT<F>::W)ce - x;      // exact in the wider type
     bool ok = (g == fl && dl <= dc) || (g == ce && dc <= dl);
-    if (!ok) { o.bad(2, "round: not a nearest integer"); return; } }
+    if (!ok) { o.bad(2, "round: not a nearest integer"); return; } VEC_LANES(round, ((r == fl && dl <= dc) || (r == ce && dc <= dl)), "round(vec): a lane is not a nearest integer") }
   if (WHICH == U_ROUNDEVEN) { F g = glm::roundEven(x); o.res(FT<F>::bits(g));
     if (!fin) { o.exp(FT<F>::bits(x)); if (!valeq(g, x)) { o.bad(1, "roundEven: inf/NaN must pass through"); } return; }
     typename FT<F>::W dl = (typename FT<F>::W)x - fl, dc = (typename FT<F>::W)ce - x; F want;
     if (dl < dc) want = fl; else if (dc < dl) want = ce; else if (fl == ce) want = fl; else want = (std::fmod((double)fl, 2.0) == 0.0) ? fl : ce;
-    o.exp(FT<F>::bits(want)); if (!(g == want)) { o.bad(dl == dc && fl != ce ? 3 : 2, "roundEven: not the nearest integer (even one on ties)"); return; }
+    o.exp(FT<F>::bits(want)); if (!(g == want)) { o.bad(dl == dc && fl != ce ? 3 : 2, "roundEven: not the nearest integer (even one on ties)"); return; } VEC_LANES(roundEven, (r == want), "roundEven(vec): a lane is not the nearest integer (even one on ties)")
     if (!valeq(want, (F)std::nearbyint((typename FT<F>::W)x))) { o.bad(95, "ORACLE: roundEven reference disagrees with libm nearbyint"); return; } }
   if (WHICH == U_FRACT) { if (!fin) { o.nontrivial = false; return; } F g = glm::fract(x); F want = x - fl;   /* IEEE subtraction is the correctly rounded exact difference */ o.res(FT<F>::bits(g)); o.exp(FT<F>::bits(want));
-    if (!(g == want)) { o.bad(1, "fract: not x - floor(x)"); return; } if (!(g >= 0 && g <= 1)) { o.bad(2, "fract: result outside [0,1]"); return; } }
-  if (WHICH == U_ABS) { F g = glm::abs(x); F want = isn ? x : (x < 0 ? -x : (x == 0 ? (F)0 : x)); o.res(FT<F>::bits(g)); o.exp(FT<F>::bits(want)); if (!valeq(g, want)) { o.bad(1, "abs: not |x|"); return; } }
+    if (!(g == want)) { o.bad(1, "fract: not x - floor(x)"); return; } if (!(g >= 0 && g <= 1)) { o.bad(2, "fract: result outside [0,1]"); return; } VEC_LANES(fract, (r == want), "fract(vec): a lane is not x - floor(x)") }
+  if (WHICH == U_ABS) { F g = glm::abs(x); F want = isn ? x : (x < 0 ? -x : (x == 0 ? (F)0 : x)); o.res(FT<F>::bits(g)); o.exp(FT<F>::bits(want)); if (!valeq(g, want)) { o.bad(1, "abs: not |x|"); return; } VEC_LANES(abs, valeq(r, want), "abs(vec): a lane is not |x|") }
   if (WHICH == U_SIGN) { F g = glm::sign(x); F want = x > 0 ? (F)1 : x < 0 ? (F)-1 : (F)0; o.res(FT<F>::bits(g)); o.exp(FT<F>::bits(want));
-    if (isn) { if (!(g == 1 || g == -1 || g == 0 || g != g)) o.bad(1, "sign(NaN) outside {-1,0,+1,NaN}"); return; } if (!(g == want)) { o.bad(2, "sign: not in {-1,0,+1} matching the sign of x"); return; } }
+    if (isn) { if (!(g == 1 || g == -1 || g == 0 || g != g)) o.bad(1, "sign(NaN) outside {-1,0,+1,NaN}"); return; } if (!(g == want)) { o.bad(2, "sign: not in {-1,0,+1} matching the sign of x"); return; } VEC_LANES(sign, (r == want), "sign(vec): a lane is not in {-1,0,+1} matching the sign of x") }
   if (WHICH == U_ISNAN) { bool g = glm::isnan(x); o.res(g); o.exp(isn); if (g != isn) { o.bad(1, "isnan"); return; } }
   if (WHICH == U_ISINF) { bool g = glm::isinf(x), w = !isn && !fin; o.res(g); o.exp(w); if (g != w) { o.bad(1, "isinf"); return; } }
   if (WHICH == U_FREXP) { if (!fin) { o.nontrivial = false; return; } int e = 12345; F m = glm::frexp(x, e); F back = glm::ldexp(m, e); o.res(FT<F>::bits(m), (uint64_t)(int64_t)e); o.exp(FT<F>::bits(x));
